@@ -11,6 +11,7 @@ Good(ev) ==
              \/ ev.op = "BulkHL" /\ Log("BulkHL", a, [match |-> TRUE]) /\ UNCHANGED st
              \/ ev.op = "BulkBits" /\ Log("BulkBits", a, [match |-> TRUE]) /\ UNCHANGED st
              \/ ev.op = "BulkComp" /\ Log("BulkComp", a, [match |-> TRUE]) /\ UNCHANGED st
+             \/ ev.op = "BulkNBit" /\ Log("BulkNBit", a, [match |-> TRUE]) /\ UNCHANGED st
           /\ ObsOK(out', o)
 TraceInit == Init /\ l = 1 /\ TLCSet(1, 1)
 TraceNext ==
